@@ -96,8 +96,8 @@ PROPS = {
                 "cases compare --aggregate with the model and spec, half re-derive the table from the real per-sequence output of the same input",
     },
     "C14": {
-        "extra_imports": ["Gofasta.Lemmas.RegionEquiv", "Gofasta.Lemmas.GffRoundTrip", "Gofasta.Lemmas.GbRoundTrip"],
-        "extra_theorems": ["Gofasta.Lemmas.RegionEquiv.genbank_region'", "Gofasta.Lemmas.RegionEquiv.genbank_region", "Gofasta.Lemmas.RegionEquiv.gff_region", "Gofasta.Lemmas.RegionEquiv.region_equiv", "Gofasta.Lemmas.RegionEquiv.fields_equiv", "Gofasta.Lemmas.RegionEquiv.oriented_of_asc", "Gofasta.Lemmas.RegionEquiv.faithful_long", "Gofasta.Lemmas.RegionEquiv.oriented_of_asc_faithful", "Gofasta.Lemmas.RegionEquiv.genbank_annotation", "Gofasta.Lemmas.RegionEquiv.gff_annotation", "Gofasta.Lemmas.RegionEquiv.annotation_equiv", "Gofasta.Lemmas.RegionEquiv.codes_perm", "Gofasta.Lemmas.RegionEquiv.variants_perm", "Gofasta.Lemmas.RegionEquiv.variants_equiv", "Gofasta.Lemmas.RegionEquiv.variants_equiv_asc", "Gofasta.Lemmas.RegionEquiv.both_succeed", "Gofasta.Lemmas.RegionEquiv.annotation_equal_of_sorted", "Gofasta.Lemmas.RegionEquiv.getAAsPair_congr", "Gofasta.Lemmas.RegionEquiv.aas_equiv_weak", "Gofasta.Lemmas.GffRT.parseFeature_renderRow", "Gofasta.Lemmas.GffRT.scanLines_render", "Gofasta.Lemmas.GffRT.gff_roundtrip", "Gofasta.Lemmas.GffRT.gff_roundtrip_canonical", "Gofasta.Lemmas.GffRT.toFeature_raw_iff", "Gofasta.Lemmas.GffRT.gff_roundtrip_exact", "Gofasta.Lemmas.GffRT.gff_roundtrip_escaped_differs", "Gofasta.Lemmas.GffRT.long_line_stops_reading", "Gofasta.Lemmas.GffRT.finding_escape_not_decoded", "Gofasta.Lemmas.GffRT.finding_hyphen_in_seqid", "Gofasta.Lemmas.GffRT.finding_fasta_contigs", "Gofasta.Lemmas.GffRT.sample_roundtrip", "Gofasta.Lemmas.GbRT.getPositions_render", "Gofasta.Lemmas.GbRT.parse_render", "Gofasta.Lemmas.GbRT.render_parse", "Gofasta.Lemmas.GbRT.getPositions_of_parse", "Gofasta.Lemmas.GbRT.unNest_fuel", "Gofasta.Lemmas.GbRT.atoi_forget", "Gofasta.Lemmas.GbRT.parseFeatures_render", "Gofasta.Lemmas.GbRT.gb_roundtrip"],
+        "extra_imports": ["Gofasta.Lemmas.RegionEquiv", "Gofasta.Lemmas.GffRoundTrip", "Gofasta.Lemmas.GbRoundTrip", "Gofasta.Lemmas.FromBytes"],
+        "extra_theorems": ["Gofasta.Lemmas.RegionEquiv.genbank_region'", "Gofasta.Lemmas.RegionEquiv.genbank_region", "Gofasta.Lemmas.RegionEquiv.gff_region", "Gofasta.Lemmas.RegionEquiv.region_equiv", "Gofasta.Lemmas.RegionEquiv.fields_equiv", "Gofasta.Lemmas.RegionEquiv.oriented_of_asc", "Gofasta.Lemmas.RegionEquiv.faithful_long", "Gofasta.Lemmas.RegionEquiv.oriented_of_asc_faithful", "Gofasta.Lemmas.RegionEquiv.genbank_annotation", "Gofasta.Lemmas.RegionEquiv.gff_annotation", "Gofasta.Lemmas.RegionEquiv.annotation_equiv", "Gofasta.Lemmas.RegionEquiv.codes_perm", "Gofasta.Lemmas.RegionEquiv.variants_perm", "Gofasta.Lemmas.RegionEquiv.variants_equiv", "Gofasta.Lemmas.RegionEquiv.variants_equiv_asc", "Gofasta.Lemmas.RegionEquiv.both_succeed", "Gofasta.Lemmas.RegionEquiv.annotation_equal_of_sorted", "Gofasta.Lemmas.RegionEquiv.getAAsPair_congr", "Gofasta.Lemmas.RegionEquiv.aas_equiv_weak", "Gofasta.Lemmas.GffRT.parseFeature_renderRow", "Gofasta.Lemmas.GffRT.scanLines_render", "Gofasta.Lemmas.GffRT.gff_roundtrip", "Gofasta.Lemmas.GffRT.gff_roundtrip_canonical", "Gofasta.Lemmas.GffRT.toFeature_raw_iff", "Gofasta.Lemmas.GffRT.gff_roundtrip_exact", "Gofasta.Lemmas.GffRT.gff_roundtrip_escaped_differs", "Gofasta.Lemmas.GffRT.long_line_stops_reading", "Gofasta.Lemmas.GffRT.finding_escape_not_decoded", "Gofasta.Lemmas.GffRT.finding_hyphen_in_seqid", "Gofasta.Lemmas.GffRT.finding_fasta_contigs", "Gofasta.Lemmas.GffRT.sample_roundtrip", "Gofasta.Lemmas.GbRT.getPositions_render", "Gofasta.Lemmas.GbRT.parse_render", "Gofasta.Lemmas.GbRT.render_parse", "Gofasta.Lemmas.GbRT.getPositions_of_parse", "Gofasta.Lemmas.GbRT.unNest_fuel", "Gofasta.Lemmas.GbRT.atoi_forget", "Gofasta.Lemmas.GbRT.parseFeatures_render", "Gofasta.Lemmas.GbRT.gb_roundtrip", "Gofasta.Lemmas.FromBytes.gffRowsOfText_renderText", "Gofasta.Lemmas.FromBytes.gff_annotation_from_bytes", "Gofasta.Lemmas.FromBytes.annotation_equiv_from_bytes", "Gofasta.Lemmas.FromBytes.variants_equiv_from_bytes", "Gofasta.Lemmas.FromBytes.both_succeed_from_bytes", "Gofasta.Lemmas.FromBytes.fasta_section_agrees", "Gofasta.Lemmas.FromBytes.gff_fasta_from_bytes"],
         "cli": True,
         "streams": {"C14": (500, 8000), "C14gff": (600, 6000), "C14gb": (600, 6000), "C14gfffuzz": (0, 30), "C14gbfuzz": (0, 30)},
         "thorough_seeds": 3,
@@ -107,12 +107,12 @@ PROPS = {
     },
     "C01": {
         "cli": True,
-        "extra_imports": ["Gofasta.Lemmas.SamWalk", "Gofasta.Lemmas.SamFlatten", "Gofasta.Lemmas.SamRoundTrip"],
+        "extra_imports": ["Gofasta.Lemmas.SamWalk", "Gofasta.Lemmas.SamFlatten", "Gofasta.Lemmas.SamRoundTrip", "Gofasta.Lemmas.FromBytes"],
         "extra_theorems": ["Gofasta.Lemmas.walk_cov", "Gofasta.Lemmas.walk_row", "Gofasta.Lemmas.covList_ge", "Gofasta.Lemmas.covList_lt",
                            "Gofasta.Lemmas.single_record_row", "Gofasta.Lemmas.swapNs_starRow", "Gofasta.Lemmas.swapGaps_starRow",
                            "Gofasta.Lemmas.flatten_column", "Gofasta.Lemmas.seqFromBlock_starRow", "Gofasta.Lemmas.query_row",
                            "Gofasta.Lemmas.toMultiAlign_total",
-                           "Gofasta.Lemmas.SamRT.sam_roundtrip", "Gofasta.Lemmas.SamRT.readSam_render", "Gofasta.Lemmas.SamRT.parseCigar_render", "Gofasta.Lemmas.SamRT.parseUint0_digitsOf", "Gofasta.Lemmas.SamRT.parseRecord_render", "Gofasta.Lemmas.SamRT.header_parse", "Gofasta.Lemmas.SamRT.readSam_unterminated", "Gofasta.Lemmas.SamRT.cigarIsValid_plain", "Gofasta.Lemmas.SamRT.cigarIsValid_clipped", "Gofasta.Lemmas.SamRT.toSamRec_expected"],
+                           "Gofasta.Lemmas.SamRT.sam_roundtrip", "Gofasta.Lemmas.SamRT.readSam_render", "Gofasta.Lemmas.SamRT.parseCigar_render", "Gofasta.Lemmas.SamRT.parseUint0_digitsOf", "Gofasta.Lemmas.SamRT.parseRecord_render", "Gofasta.Lemmas.SamRT.header_parse", "Gofasta.Lemmas.SamRT.readSam_unterminated", "Gofasta.Lemmas.SamRT.cigarIsValid_plain", "Gofasta.Lemmas.SamRT.cigarIsValid_clipped", "Gofasta.Lemmas.SamRT.toSamRec_expected", "Gofasta.Lemmas.FromBytes.samRecsOfText_render", "Gofasta.Lemmas.FromBytes.wf_iff_recFit", "Gofasta.Lemmas.FromBytes.toMultiAlign_from_bytes", "Gofasta.Lemmas.FromBytes.unterminated_last_read", "Gofasta.Lemmas.FromBytes.unterminated_loses_last"],
         "streams": {"C01": (500, 10000), "C01sam": (600, 6000), "C01samfuzz": (0, 30)},
         "thorough_seeds": 3,
         "rule": "reference 10-120 nt; 1-6 queries of 1-3 records (disjoint or overlapping; agreeing or conflicting templates); CIGARs from a grammar over all nine "
@@ -122,8 +122,8 @@ PROPS = {
     },
     "C02": {
         "cli": True,
-        "extra_imports": ["Gofasta.Lemmas.PairSingle", "Gofasta.Lemmas.PairSpec", "Gofasta.Lemmas.PairMulti", "Gofasta.Lemmas.PairSkipIns"],
-        "extra_theorems": ["Gofasta.Lemmas.PairSkipIns.toPairAlign_spec", "Gofasta.Lemmas.PairSkipIns.pairOfBlock_skipIns", "Gofasta.Lemmas.PairSkipIns.walkWithRef_noIns_query", "Gofasta.Lemmas.PairMulti.blockToSeqPair_eq_specPair", "Gofasta.Lemmas.PairMulti.multi_ref_lossless", "Gofasta.Lemmas.PairMulti.multi_lengths",
+        "extra_imports": ["Gofasta.Lemmas.PairSingle", "Gofasta.Lemmas.PairSpec", "Gofasta.Lemmas.PairMulti", "Gofasta.Lemmas.PairSkipIns", "Gofasta.Lemmas.FromBytes"],
+        "extra_theorems": ["Gofasta.Lemmas.FromBytes.toPairAlign_from_bytes", "Gofasta.Lemmas.FromBytes.toPairAlign_keepIns_from_bytes", "Gofasta.Lemmas.PairSkipIns.toPairAlign_spec", "Gofasta.Lemmas.PairSkipIns.pairOfBlock_skipIns", "Gofasta.Lemmas.PairSkipIns.walkWithRef_noIns_query", "Gofasta.Lemmas.PairMulti.blockToSeqPair_eq_specPair", "Gofasta.Lemmas.PairMulti.multi_ref_lossless", "Gofasta.Lemmas.PairMulti.multi_lengths",
                            "Gofasta.Lemmas.PairMulti.multi_gap_count", "Gofasta.Lemmas.PairMulti.multi_skip_insertions", "Gofasta.Lemmas.PairMulti.toPairAlign_keepIns_spec",
                            "Gofasta.Lemmas.PairSpec.specPair_lossless", "Gofasta.Lemmas.PairSpec.specPair_skip_insertions",
                            "Gofasta.Lemmas.PairSpec.specPair_lengths", "Gofasta.Lemmas.blockToSeqPair_single", "Gofasta.Lemmas.single_ref_lossless", "Gofasta.Lemmas.single_lengths",
